@@ -295,6 +295,8 @@ type Spec struct {
 	// K8s: the shards are listed and scaled by the real Kubernetes replicas manager on a client-go fake whose
 	// StatefulSet and pods mirror the simulated pods (ordinals above 9 matter: "prom-10" sorts before "prom-2")
 	K8s bool `json:"k8s,omitempty"`
+	// K8sDecoys: two more StatefulSets with the same labels exist next to ours (other replicas)
+	K8sDecoys bool `json:"k8sDecoys,omitempty"`
 	// BrokenReplica: a second replica is listed BEFORE this one; its only shard answers every request with 503 and
 	// a JSON error body (what a sidecar whose Prometheus is down sends), through the real api.Get / api.Post
 	BrokenReplica bool         `json:"brokenReplica,omitempty"`
@@ -319,15 +321,16 @@ type World struct {
 	mu      sync.Mutex
 	scales  []int32 // ChangeScale arguments of the current cycle
 	// K8s mode
-	k8sCli      *fake.Clientset
-	k8sMgr      shard.Manager
-	k8sListings int
-	CycleWait   time.Duration // watchdog of one cycle (default 120 s)
-	brokenSrv   *httptest.Server
-	BrokenHits  int // requests the broken replica's shard answered with 503
-	posts       map[string]int
-	allSync     bool
-	Log         []string
+	k8sCli       *fake.Clientset
+	k8sMgr       shard.Manager
+	k8sListings  int
+	K8sNotListed int           // cycles in which no manager returned by the replicas manager listed our pods
+	CycleWait    time.Duration // watchdog of one cycle (default 120 s)
+	brokenSrv    *httptest.Server
+	BrokenHits   int // requests the broken replica's shard answered with 503
+	posts        map[string]int
+	allSync      bool
+	Log          []string
 	// Scraped[shard id][target id] = requests that shard's proxy really made to the target (counted at the farm)
 	Scraped map[string]map[int]int
 	// removal monitor (C07): per ordinal, when the first pod was created and when targets were last seen there
